@@ -168,7 +168,7 @@ class C13(Prop):
         "dense coefficients are recovered from the point-wise oracle by exact finite differences of a quadratic (verified at an extra point)",
         "numpy.linalg (solve, slogdet, inv, eigvalsh) on <=5x5 well-conditioned matrices",
     )
-    cases = {"quick": 2000, "thorough": 80000}
+    cases = {"quick": 4000, "thorough": 80000}
 
     def strategy(self, tier):
         return cases()
